@@ -38,6 +38,25 @@ func cmdCheck(args []string) {
 	if t := os.Getenv("VERIF_TIER"); t != "" && *tier == "" {
 		*tier = t
 	}
+	if *prop == "all" {
+		// development aid: one load, every property (used by tools/mut.sh and the matrix)
+		p := loadProg(repoDir(), false, "")
+		var ids []string
+		for id := range rules {
+			ids = append(ids, id)
+		}
+		sort.Strings(ids)
+		rc := 0
+		for _, id := range ids {
+			c := &Check{P: p, Prop: id, Tier: *tier, start: time.Now(), info: map[string]interface{}{}, assum: map[string]bool{}}
+			p.undecided = nil
+			rules[id](c)
+			if r := c.finish(explanations[id]); r > rc {
+				rc = r
+			}
+		}
+		os.Exit(rc)
+	}
 	rule, ok := rules[*prop]
 	if !ok {
 		fmt.Fprintf(os.Stderr, "svclint: unknown property %q\n", *prop)
@@ -385,4 +404,52 @@ func typeOfTerm(t *Term) types.Type {
 
 func thoroughExtras(c *Check) {
 	thoroughRun(c)
+}
+
+// deepCall is a call reachable from a function, with arguments expressed in that function's vocabulary.
+type deepCall struct {
+	Name string
+	Fn   *Func
+	Args []*Term
+	Recv *Term
+	Pos  token.Pos
+}
+
+// deepCalls lists the calls made by f and (transitively, depth-limited) by the module functions it calls,
+// with callee parameters substituted by the actual arguments.
+func (c *Check) deepCalls(f *Func, depth int) []*deepCall {
+	var out []*deepCall
+	seen := map[string]bool{}
+	for _, pa := range c.P.PathsOf(f) {
+		for _, ev := range pa.Events {
+			if ev.Kind != EvCall {
+				continue
+			}
+			k := fmt.Sprintf("%d|%s", ev.Pos, fmt.Sprint(ev.CI.args))
+			if seen[k] {
+				continue
+			}
+			seen[k] = true
+			out = append(out, &deepCall{Name: ev.CI.name, Fn: ev.CI.fn, Args: ev.CI.args, Recv: ev.CI.recv, Pos: ev.Pos})
+			g := ev.CI.fn
+			if g == nil || depth <= 0 || !g.isHandWritten() || g.Body == nil || g == f {
+				continue
+			}
+			m := map[string]*Term{}
+			for i, a := range ev.CI.args {
+				m[fmt.Sprintf("P%d", i)] = a
+			}
+			if ev.CI.recv != nil {
+				m["Precv"] = ev.CI.recv
+			}
+			for _, dc := range c.deepCalls(g, depth-1) {
+				nd := &deepCall{Name: dc.Name, Fn: dc.Fn, Pos: dc.Pos, Recv: dc.Recv.Subst(m)}
+				for _, a := range dc.Args {
+					nd.Args = append(nd.Args, a.Subst(m))
+				}
+				out = append(out, nd)
+			}
+		}
+	}
+	return out
 }
